@@ -78,6 +78,11 @@ type Muxer struct {
 type segmentChannel struct {
 	mu sync.Mutex
 	ch chan *Segment
+	// closing is closed by UnregisterProtocol before it takes mu. The read loop
+	// holds mu while it delivers a segment; if the protocol has stopped draining
+	// its channel (it is being unregistered) that delivery would block forever,
+	// and with it UnregisterProtocol, Protocol.Stop() and the whole read side.
+	closing chan struct{}
 }
 
 type ConnectionClosedError struct {
@@ -198,7 +203,7 @@ func (m *Muxer) RegisterProtocol(
 	// Generate channels
 	senderChan := make(chan *Segment, 10)
 	receiver := make(chan *Segment, 10)
-	receiverChan := &segmentChannel{ch: receiver}
+	receiverChan := &segmentChannel{ch: receiver, closing: make(chan struct{})}
 	// Record channels in protocol sender/receiver maps
 	m.protocolReceiversMutex.Lock()
 	if _, ok := m.protocolSenders[protocolId]; !ok {
@@ -251,6 +256,9 @@ func (m *Muxer) UnregisterProtocol(
 	}
 	// Signal shutdown to protocol
 
+	// Release a read loop that is blocked delivering to this receiver (the
+	// mapping is removed below under protocolReceiversMutex, so this runs once)
+	close(recvChan.closing)
 	recvChan.mu.Lock()
 	defer recvChan.mu.Unlock()
 	if recvChan.ch != nil {
@@ -436,6 +444,10 @@ func (m *Muxer) readLoop() {
 		case <-m.doneChan:
 			recvChan.mu.Unlock()
 			return
+		case <-recvChan.closing:
+			// The protocol is being unregistered and no longer reads its
+			// channel: drop the segment instead of blocking the read loop
+			recvChan.mu.Unlock()
 		case recvChan.ch <- msg:
 			recvChan.mu.Unlock()
 		}
